@@ -216,7 +216,7 @@ def explicit_cases(draw, tier="quick"):
     allow_nan = draw(st.sampled_from([False, False, True]))
     cols = [draw(gen.values_for(ax["pairs"], n, n, allow_nan=allow_nan)) for ax in axes]
     rows = [[cols[j][i] for j in range(d)] for i in range(n)]
-    wkind, weights = draw(gen.weights_for(n, kinds=("none", "int", "dyadic", "float", "signed")))
+    wkind, weights = draw(gen.weights_for(n, kinds=("none", "int", "dyadic", "float", "signed", "signed")))
     entries = {2: ["h", "h", "h_lists", "h2", "h2", "h2_lists"], 3: ["h", "h_lists", "h3", "h3_cols", "h3_cols"], 4: ["h", "h_lists"]}[d]
     entry = draw(st.sampled_from(entries))
     if entry == "h3_cols" and n == 0:
